@@ -45,7 +45,9 @@ def un (w : World) (cfg : Cfg) : Ty → Obj → Obj
   | .cls c, .inst _ fs =>
       if cfg.tupleStrat then .coll .tuple (unFieldsT w cfg (w.fields c) fs)
       else .dict (unFields w cfg (w.fields c) fs)
-  | .td c, .dict kvs => if cfg.gen then .dict (unTD w cfg (w.fields c) kvs) else .dict kvs
+  | .td c, .dict kvs =>
+      -- BaseConverter has no TypedDict hook: the payload is handled as the dict it is, by run-time class
+      if cfg.gen then .dict (unTD w cfg (w.fields c) kvs) else .dict (mkDict (unAnyKV w cfg kvs))
   | _, x => x
 termination_by t x => (sizeOf x, sizeOf t)
 /-- unstructure by run-time class -/
